@@ -6,12 +6,14 @@
      zw_correct / pvs_correct      PROVED, abstractly (C05_pvs_correct) and for the concrete engine model (C05_search_window_partial).
      analyze_precise_exact         PROVED for the engine model Search.v, on every engine state without a table (fresh or left by ANY
                                    history of earlier calls, completed or cancelled), for a call cancelled at ANY point or never:
-                                   C05_analyze_precise_exact (boards up to 5x5, at most 51 pieces, both evaluators of the check:
-                                   NO hypothesis about the rules engine or the evaluator is left - C01/C02/C03/C04/C18 discharge them),
-                                   C05_analyze_precise_exact_game (every position of a game replayed from tak.New),
-                                   C05_analyze_precise_exact_winner / _default (any size: under the side condition `within`, which says
-                                   that the searched tree stays inside the loop fuel of the MODEL - 690 generated moves per node - and
-                                   inside C01's 64-piece stack limit; proved outright for the small boards: C05_within_small).
+                                   C05_analyze_precise_exact_64 (EVERY board size, games of at most 64 pieces - the standard sets of
+                                   3x3..6x6 - both evaluators of the check: NO hypothesis about the rules engine or the evaluator is
+                                   left - C01/C02/C03/C04/C18 discharge them), C05_analyze_precise_exact_game64 (every position of a
+                                   game replayed from tak.New), C05_analyze_precise_exact (the earlier form: boards up to 5x5, 51 pieces),
+                                   C05_analyze_precise_exact_winner / _default (any game: under the side condition `within`, which says
+                                   that the searched tree stays inside C01's 64-piece stack limit; proved outright for games of at
+                                   most 64 pieces: C05_within_total64).  The model's loops over the move generator are bounded by the
+                                   node's own number of generated moves (Search.gfuel), so no bound on that number is assumed.
                                    The conditional forms over an abstract set of positions keep the suffix _partial.
      analyze_all_exact             not proved (AnalyzeAll is modelled, Search.analyze_all; its set of first moves is compared with the
                                    exhaustive oracle and with the implementation on every run).
@@ -60,7 +62,7 @@ Print Assumptions C05_pvs_correct.
 Theorem C05_search_window_partial : forall pinned basis cfg Pos, precise cfg -> rules_facts basis cfg Pos ->
   forall f d, (d < f)%nat -> rec_ok basis cfg Pos d (srch pinned basis cfg 0 f).
 Proof.
-  intros pinned basis cfg Pos (P1 & P2 & P3) (R1 & R2 & R3 & R4 & _). exact (srch_ok pinned basis cfg P1 P2 P3 Pos R1 R2 R3 R4).
+  intros pinned basis cfg Pos (P1 & P2 & P3) (R1 & R2 & R4 & _). exact (srch_ok pinned basis cfg P1 P2 P3 Pos R1 R2 R4).
 Qed.
 Print Assumptions C05_search_window_partial.
 
@@ -77,7 +79,7 @@ Proof. exact analyze_precise_exact_fixed. Qed.
 Print Assumptions C05_analyze_precise_exact_partial.
 
 (* ---- the same with the hypotheses asked only where the search goes, and for a call cancelled anywhere ----
-   rules_factsx basis cfg Pos: the five facts of rules_facts for a family Pos d of positions indexed by the remaining depth
+   rules_factsx basis cfg Pos: the four facts of rules_facts for a family Pos d of positions indexed by the remaining depth
    (a successor of a Pos (S d) position is a Pos d position; nothing is asked of the successors of Pos 0 positions).
    analyze_cancel basis cfg k: the context is cancelled inside the k-th leaf evaluation of the call (k = 0: never; analyze_search). *)
 Theorem C05_analyze_precise_exact_indexed_partial : forall basis cfg Pos, precise cfg -> rules_factsx basis cfg Pos ->
@@ -92,12 +94,10 @@ Print Assumptions C05_analyze_precise_exact_indexed_partial.
    base_ok p   = Preserve1.pos_ok p (the invariant of C01: what New establishes and every accepted move preserves)
                  /\ total p <= 255 (pieces on the board + reserves: the byte reserves cannot wrap, C02) /\ 0 <= move p
                  /\ supply p (in the two opening plies the stones about to be placed exist).
-   within d p  = in the tree of depth d below p (finished games are not expanded) every node has at most 690 generated moves and no
-                 accepted move builds a stack higher than 64:
-                   within 0 p = True;  within (S d) p = is_over p = false -> length (all_moves p) <= 690 /\
-                                                         forall m q, Refine.mv p m = Ok q -> heights64 q /\ within d q.
-                 690 is the loop fuel of the MODEL (Search.v: 700); the Go code appends to a slice and has no such limit.  It is NOT
-                 a universal bound: a 6x6 position with ten stacks of six owned by the mover has more than 1200 generated moves.
+   within d p  = in the tree of depth d below p (finished games are not expanded) no accepted move builds a stack higher than 64:
+                   within 0 p = True;  within (S d) p = is_over p = false -> forall m q, Refine.mv p m = Ok q -> heights64 q /\ within d q.
+                 (Until the model's loops were given the node's own move count as fuel - Search.gfuel - this also had to bound the number
+                 of generated moves per node by 690; a position with more moves made the model, not the Go code, stop early.)
    dmax cfg    = min (c_depth cfg) 16, the deepest iteration Analyze runs.
    max_terminal_ply = 2 684 354 (C18: beyond it a won game's score can leave the decided range).
    Discharged: closure of the position set under moves (C01 move_exact), "an accepted hint move leads where a generated move leads"
@@ -123,7 +123,11 @@ Theorem C05_all_moves_small : forall p, (3 <= size p <= 5)%N -> length (Height p
 Proof. exact all_moves_small. Qed.
 Print Assumptions C05_all_moves_small.
 
-(* hence the side condition holds at every depth on boards up to 5x5 with at most 51 pieces in the game (standard sets: 20, 30, 44) *)
+(* the side condition holds at every depth, on every board size, when the game has at most 64 pieces (standard sets: 20, 30, 44, 62) *)
+Theorem C05_within_total64 : forall d p, pos_ok p -> (total p <= 64)%N -> within d p.
+Proof. exact within_total64. Qed.
+Print Assumptions C05_within_total64.
+
 Theorem C05_within_small : forall d p, pos_ok p -> (size p <= 5)%N -> (total p <= 51)%N -> within d p.
 Proof. exact within_small. Qed.
 Print Assumptions C05_within_small.
@@ -150,6 +154,24 @@ Theorem C05_analyze_precise_exact_game : forall cfg, precise cfg -> builtin_eval
   SI sk /\ (0 < d -> exact_result gen_basis cfg p pv v d).
 Proof. exact analyze_exact_game. Qed.
 Print Assumptions C05_analyze_precise_exact_game.
+
+(* the same for EVERY board size and every game of at most 64 pieces (the standard sets of 3x3, 4x4, 5x5 and 6x6) *)
+Theorem C05_analyze_precise_exact_64 : forall cfg, precise cfg -> builtin_eval cfg ->
+  forall k s p sk pv v d acc c,
+  SI s -> base_ok p -> (total p <= 64)%N -> move p + 16 <= max_terminal_ply ->
+  analyze_cancel gen_basis cfg k s p = (sk, (pv, v, d, acc, c)) ->
+  SI sk /\ (0 < d -> exact_result gen_basis cfg p pv v d).
+Proof. exact analyze_exact_64. Qed.
+Print Assumptions C05_analyze_precise_exact_64.
+
+Theorem C05_analyze_precise_exact_game64 : forall cfg, precise cfg -> builtin_eval cfg ->
+  forall sz bwt stones caps ms p, (3 <= sz <= 8)%N -> (0 < stones)%N -> (2 * (stones + caps) <= 64)%N ->
+  replay (new_pos sz bwt stones caps) ms = Ok p -> Z.of_nat (length ms) + 16 <= max_terminal_ply ->
+  forall k s sk pv v d acc c, SI s ->
+  analyze_cancel gen_basis cfg k s p = (sk, (pv, v, d, acc, c)) ->
+  SI sk /\ (0 < d -> exact_result gen_basis cfg p pv v d).
+Proof. exact analyze_exact_game64. Qed.
+Print Assumptions C05_analyze_precise_exact_game64.
 
 (* Non-vacuity, computed on the instantiated model (vm_compute): q4 = the 3x3 position after a1 c3 b2 b1 (White to move, live);
    depth 3, sorted, built-in evaluator: every hypothesis of C05_analyze_precise_exact_default holds, the call reports depth 3 with the
